@@ -11,6 +11,10 @@ Monitor : the property statement: own token or an exception; TransportError carr
           EVERY non-200 reply the call actually received (whatever its code in {201 … 503}, with or without a length,
           whatever its body looks like: text, a JSON-RPC result for this call, for another call, an error object);
           never a foreign token; after the faults stop at most one further call — the first — fails.
+          Error-reply BODIES of every kind (family `sb`, see harness/peer.py): empty, tens of KiB, HTML in UTF-8 and in
+          ISO-8859-1, gzip bytes with and without `Content-Encoding`, arbitrary bytes, text cut inside a character, UTF-16,
+          JSON-RPC look-alikes - with a Content-Length (keep-alive / `Connection: close`), without one, in chunked transfer
+          encoding; each followed by healthy calls, each also on a kept-alive connection.
           Replies are also delivered IN PIECES (family `q`, see harness/peer.py): the peer pauses after the status line, after
           the header block, inside the body, before surplus bytes and after informational 1xx responses, each pause lasting
           until the client has acted (returned, or blocked reading) — so bytes of an exchange can reach the connection after
@@ -36,6 +40,7 @@ REQUIRED_THEOREMS = [
     "C19_gen_closeOnError", "C19_gen_successStatus", "C19_gen_raisesTransportError", "C19_gen_libSwitches", "C19_gen_emptyBodyNone",
     "C19_gen_responseNotClosedUnread", "C19_split_transport_error", "C19_split_informational", "C19_split_cut_short_raises_incomplete",
     "C19_split_late_body_is_consumed", "C19_split_early_hints_then_final", "C19_split_extends",
+    "C19_error_body_transport_error", "C19_error_body_irrelevant", "C19_error_body_recovery", "C19_gen_errorBodyUnused",
 ]
 
 # status codes of replies with a body (the property: "non-200 status with or without a body"); 204/304 are bodiless
@@ -43,10 +48,10 @@ ERR_CODES = [201, 202, 206, 301, 302, 400, 401, 403, 404, 500, 502, 503]
 BODY_KINDS = ["", "o", "f", "e"]  # text / own result / another token's result / error object
 BODILESS = [204, 304]
 # behaviour families of the property's alphabet (+ surplus bytes and hidden replies); instantiated per use
-FAMILIES = ["ok", "okc", "down", "cbr", "rst", "sl", "snl", "bl", "blz", "trunc", "empty", "nonjson", "xn", "sx", "sy", "sz", "q"]
+FAMILIES = ["ok", "okc", "down", "cbr", "rst", "sl", "snl", "bl", "blz", "trunc", "empty", "nonjson", "xn", "sx", "sy", "sz", "q", "sb"]
 UNREAD = ("bl", "sy", "sz", "xl")  # families that leave something unread (or an unread response) on a kept-alive connection
 TAIL = 3  # healthy calls appended to every script
-NON200 = re.compile(r"^(snl|sl|blz|bl|sx|sy|sz)(\d+)")
+NON200 = re.compile(r"^(snl|sl|blz|bl|sx|sy|sz|sb)(\d+)")
 
 
 # healthy exchanges delivered in pieces (after `100 Continue`, cut after the status line / the headers / inside the body)
@@ -59,6 +64,8 @@ Q_INFOS = ["", "c", "C", "e", "E", "p", "P"]
 def family(beh):
     if peermod.parse_q(beh) is not None:
         return "q"
+    if peermod.parse_sb(beh) is not None:
+        return "sb"
     m = re.match(r"^(snl|sl|blz|bl|xn|xl|sx|sy|sz)\d", beh)
     return m.group(1) if m else beh
 
@@ -143,7 +150,17 @@ def instantiate(fam, rng, i):
         return "sz%d_%d" % (rng.choice(ERR_CODES), peermod.FOREIGN + i)
     if fam == "q":
         return instantiate_q(rng)
+    if fam == "sb":
+        return "sb%d_%s_%s" % (rng.choice(ERR_CODES), rng.choice(peermod.ERROR_BODY_KINDS), rng.choice(peermod.ERROR_FRAMINGS))
     return fam
+
+
+def leaves_unread(beh):
+    """The reply leaves something unread (or an unread response) on a kept-alive connection."""
+    sb = peermod.parse_sb(beh)
+    if sb is not None:
+        return sb[2] == "c"   # a chunked error body: no Content-Length, nothing is read
+    return family(beh) in UNREAD or bool((q_facts(beh) or {}).get("unread"))
 
 
 def classify(kind, val, J):
@@ -270,7 +287,7 @@ def excluded(sc):
     for a, b in zip(sc, sc[1:]):
         if not a or not b:
             continue
-        if any(family(x) in UNREAD or (q_facts(x) or {}).get("unread") for x in a) and b[0] == "down":
+        if any(leaves_unread(x) for x in a) and b[0] == "down":
             return True
         if any(family(x) in ("sy", "sz") or (q_facts(x) or {}).get("unread") == "junk" for x in a) and b[0] == "rst":
             return True
@@ -288,7 +305,9 @@ def run(ctx):
     cfg = impl.jsonrpclib.config.Config()
     ctx.rule = ("fault scripts over the behaviour families %s (one behaviour list per call: first attempt, retry); status codes of "
                 "sl/snl/sx/sy/sz drawn per use from %s, body kinds from {text, own JSON-RPC result, another token's result, error "
-                "object}, bodiless 204/304 with and without `Content-Length: 0`; followed by %d healthy calls (keep-alive or closing), "
+                "object}, bodiless 204/304 with and without `Content-Length: 0`; family sb = error bodies of every kind %s x framing "
+                "{Content-Length, no length + close, chunked transfer encoding, Content-Length + Connection: close}, every "
+                "combination once (alone or after a healthy keep-alive call) and drawn in the pairs and random scripts; followed by %d healthy calls (keep-alive or closing), "
                 "on a fresh scripted peer + fresh ServerProxy per script, over TCP and over a Unix socket; quick: every single "
                 "(code, body kind, length) combination, every pair of families, random scripts of length <= 8; thorough: all "
                 "triples of families plus random to length 12; a few sessions with an unsolicited complete reply (outside the "
@@ -298,7 +317,7 @@ def run(ctx):
                 "shorter than the announced length, or no length; non-200 bodies that are themselves complete HTTP replies): every "
                 "(final, delta) with every single cut and with every informational prefix, in first position and after a healthy "
                 "call, the healthy tail itself partly delivered in pieces; distinct_nontrivial = distinct scripts in "
-                "which a fault is followed by a healthy call" % (FAMILIES, ERR_CODES, TAIL))
+                "which a fault is followed by a healthy call" % (FAMILIES, ERR_CODES, peermod.ERROR_BODY_KINDS, TAIL))
     old_to = socket.getdefaulttimeout()
     socket.setdefaulttimeout(30)
     tmpdir = tempfile.mkdtemp(prefix="jrv-c19-")
@@ -323,6 +342,16 @@ def run(ctx):
         for code in BODILESS:
             sessions.append(([["bl%d" % code]], TAIL))
             sessions.append(([["blz%d" % code]], TAIL))
+        # every kind of error body in every framing: alone on a new connection, and on a kept-alive one
+        sbn = 0
+        for kind_ in peermod.ERROR_BODY_KINDS:
+            for fr in peermod.ERROR_FRAMINGS:
+                b = "sb%d_%s_%s" % (ERR_CODES[sbn % len(ERR_CODES)], kind_, fr)
+                sessions.append(([[b]] if sbn % 2 == 0 else [["ok"], [b]], TAIL))
+                if ctx.thorough:
+                    sessions.append(([["ok"], [b]] if sbn % 2 == 0 else [[b]], TAIL))
+                    sessions.append(([[b], [b]], TAIL))
+                sbn += 1
         # replies delivered in pieces: every (final, delta) x every cut set with one or all cuts x {no informational
         # response, each single one}; alone and after a healthy keep-alive call (a cached connection)
         q_finals = [("ok", "=+~-"), ("s%d" % rng.choice(ERR_CODES), "=+~-n"), ("s%dh" % rng.choice([400, 404, 500, 502, 503]), "=+~-n"),
@@ -401,6 +430,11 @@ def run(ctx):
                         m = NON200.match(b)
                         if m:
                             ctx.hist["status/%s" % m.group(2)] += 1
+                        sb = peermod.parse_sb(b)
+                        if sb is not None:
+                            ctx.hist["error-body/kind/" + sb[1]] += 1
+                            ctx.hist["error-body/framing/" + {"l": "content-length", "n": "no-length-close", "c": "chunked",
+                                                              "k": "content-length+connection-close"}[sb[2]]] += 1
         ctx.extra["foreign_results_after_unsolicited_reply_outside_alphabet"] = outside
         ctx.extra["non200_replies_cut_short_raising_IncompleteRead_not_TransportError"] = ctx.hist.get(
             "q/non200-cut-short-raised-other-than-TransportError", 0)
